@@ -302,6 +302,17 @@ def _unary_form(name):
     NATIVE.add(E.PTP + name, gen, build)
 
 
+def _gen_set_attribute(rng, i):
+    return {"self": _gen_set(rng), "name": rng.choice(["min", "max", "count", "count", "foo", ""])}
+
+
+def _build_set_attribute(d):
+    from pydsdl import _expression as X
+
+    me, name = _mk(d["self"]), X.String(d["name"])
+    return (lambda: me._attribute(name)), {"self": me, "name": name}
+
+
 def install(reg):
     """One native case per verified contract of the expression layer."""
     for q, c in sorted(reg.contracts.items()):
@@ -313,6 +324,10 @@ def install(reg):
             NATIVE.add(q, _gen_rational_init, _build_rational_init)
         elif q.endswith("Set.__init__"):
             NATIVE.add(q, _gen_set_init, _build_set_init)
+        elif q.endswith("Set._attribute"):
+            NATIVE.add(q, _gen_set_attribute, _build_set_attribute)
+        elif q.endswith("._attribute"):
+            continue
         elif q.startswith(E.EX) and q.split(".")[-2] in _CLASS_KIND:
             add_method(q)
     NATIVE.add(E.PARSER + "_parse_string_literal", _gen_string_literal, _build_string_literal)
